@@ -58,6 +58,8 @@ def lean_type(t):
         return "(" + " → ".join([lean_type(x) for x in t[1]] + ["Option " + lean_type(t[2])]) + ")"
     if k == "unit":
         return "Unit"
+    if k == "abs":
+        return t[1]
     raise Untranslatable("type %r" % (t,))
 
 
@@ -482,6 +484,9 @@ class Translator:
             if name == "bool" and len(n.args) == 1:
                 a, ta = self.ex(n.args[0], c, binds)
                 return self.truth(a, ta), BOOL
+            if name == "bytes" and len(n.args) == 1 and isinstance(n.args[0], ast.Name) and c.env.get(n.args[0].id, (None,))[0] == "rec" \
+                    and (c.env[n.args[0].id][1] + ".__bytes__") in self.fns:
+                return self.call_fn(self.fns[c.env[n.args[0].id][1] + ".__bytes__"], [n.args[0]], [], c, binds)
             if name in ("bytearray", "bytes", "str", "list") and len(n.args) == 1:
                 a, ta = self.ex(n.args[0], c, binds)
                 if name == "str" and ta == VAL and getattr(self, "concrete_str", False):
@@ -492,6 +497,15 @@ class Translator:
                 if (name in ("bytearray", "bytes") and ta == BYTES) or (name == "str" and ta == STR) or (name == "list" and ta[0] == "list"):
                     return a, ta
                 raise Untranslatable("%s(%s)" % (name, lean_type(ta)))
+            if name == "zip" and len(n.args) == 2:
+                a, ta = self.ex(n.args[0], c, binds)
+                b, tb = self.ex(n.args[1], c, binds)
+                if ta[0] != "list" or tb[0] != "list":
+                    raise Untranslatable("zip of non-lists")
+                return "(%s.zip %s)" % (a, b), T_list(T_tuple([ta[1], tb[1]]))
+            if name == "bytes" and len(n.args) == 1 and isinstance(n.args[0], ast.Name) and c.env.get(n.args[0].id, (None,))[0] == "rec" \
+                    and (c.env[n.args[0].id][1] + ".__bytes__") in self.fns:
+                return self.call_fn(self.fns[c.env[n.args[0].id][1] + ".__bytes__"], [n.args[0]], [], c, binds)
             if name == "iter" and len(n.args) == 1:
                 a, ta = self.ex(n.args[0], c, binds)
                 if ta[0] != "list":
@@ -634,6 +648,23 @@ class Translator:
                 v = c.fresh("subst")
                 binds.append(("(%s, _)" % v, "Mimic.Py.subIter E.paramAt %s (%s.map (fun x => %s%s x))" % (text, it, fn.lean, " E" if fn.env else "")))
                 return v, STR
+            # b"".join(xs)
+            if f.attr == "join" and isinstance(f.value, ast.Constant) and f.value.value == b"" and len(n.args) == 1:
+                a, ta = self.ex(n.args[0], c, binds)
+                if ta != T_list(BYTES):
+                    raise Untranslatable("join of " + lean_type(ta))
+                return "(%s).flatten" % a, BYTES
+            # method of an abstract object (supplied as a function parameter)
+            if isinstance(f.value, ast.Name) and c.env.get(f.value.id, (None,))[0] == "abs" \
+                    and (c.env[f.value.id][1], f.attr) in getattr(self, "abs_methods", {}):
+                pname, ptypes, rt, partial = self.abs_methods[(c.env[f.value.id][1], f.attr)]
+                args = [self.ex(a, c, binds, pt) for a, pt in zip(n.args, ptypes)]
+                term = "%s %s%s" % (pname, f.value.id, "".join(" " + self.coerce(e, t, pt) for (e, t), pt in zip(args, ptypes)))
+                if partial:
+                    v = c.fresh("enc")
+                    binds.append((v, term))
+                    return v, rt
+                return "(%s)" % term, rt
             # cs.encode(text)
             if f.attr == "encode" and len(n.args) == 1:
                 recv, tr = self.ex(f.value, c, binds)
@@ -886,6 +917,19 @@ class Translator:
             return self.wrap(binds, "let %s : %s := %s\n%s" % (s.target.id, lean_type(t), self.coerce(e, te, t), cont(c)))
         if isinstance(s, ast.Assign) and len(s.targets) == 1:
             return self.assign(s.targets[0], s.value, c, cont)
+        if isinstance(s, ast.AugAssign) and isinstance(s.op, ast.BitOr) and isinstance(s.target, ast.Subscript) \
+                and isinstance(s.target.value, ast.Attribute) and isinstance(s.target.value.value, ast.Name) \
+                and c.env.get(s.target.value.value.id, (None,))[0] == "rec":
+            obj, fld = s.target.value.value.id, s.target.value.attr
+            ft = [x[1] for x in self.records[c.env[obj][1]] if x[0] == fld]
+            if ft and ft[0] == BYTES:
+                binds = []
+                ix, ti = self.ex(s.target.slice, c, binds)
+                vx, tv = self.ex(s.value, c, binds)
+                old, new = c.fresh("old"), c.fresh("new")
+                binds.append((old, "Mimic.Py.byteAt %s.%s %s" % (obj, fld, ix)))                    # IndexError
+                binds.append((new, "(if (%s ||| %s) < 256 then some (%s ||| %s) else none)" % (old, vx, old, vx)))    # ValueError: byte must be in range(0, 256)
+                return self.wrap(binds, "let %s := { %s with %s := %s.%s.set %s (UInt8.ofNat %s) }\n%s" % (obj, obj, fld, obj, fld, ix, new, cont(c)))
         if isinstance(s, ast.AugAssign) and isinstance(s.target, ast.Name):
             fake = ast.BinOp(left=ast.Name(id=s.target.id, ctx=ast.Load()), op=s.op, right=s.value)
             return self.assign(s.target, fake, c, cont)
@@ -1079,9 +1123,15 @@ class Translator:
                 types[nm] = t
             return ""
         saved_pending, saved_lc = list(getattr(self, "pending", [])), dict(getattr(self, "loop_counter", {}))
+        tn = s.test
+        narrow_else = (isinstance(tn, ast.Compare) and len(tn.ops) == 1 and isinstance(tn.ops[0], ast.Is) and isinstance(tn.left, ast.Name)
+                       and isinstance(tn.comparators[0], ast.Constant) and tn.comparators[0].value is None
+                       and c.env.get(tn.left.id, (None,))[0] == "opt" and bool(s.orelse))
         for br in (s.body, s.orelse):
             cc = c.copy()
             cc.counter = [c.counter[0]]
+            if narrow_else and br is s.orelse:
+                cc.env[tn.left.id] = c.env[tn.left.id][1]
             self.block(list(br), cc, leaf)
         self.pending, self.loop_counter = saved_pending, saved_lc      # the probe pass emits nothing
         def leaf2(c2):
@@ -1089,6 +1139,8 @@ class Translator:
             tup = "()" if not items else items[0] if len(items) == 1 else "(" + ", ".join(items) + ")"
             return ("some %s" % tup) if c.partial else tup
         c1, c2 = c.copy(), c.copy()
+        if narrow_else and tn.left.id not in names:
+            c2.env[tn.left.id] = c.env[tn.left.id][1]
         thn = self.block(list(s.body), c1, leaf2)
         els = self.block(list(s.orelse), c2, leaf2)
         c3 = c.copy()
@@ -1098,6 +1150,8 @@ class Translator:
             c3.rd = c.fresh("r")
         pat = self.state(names, c3, with_rd)
         join = "(if %s then\n%s\nelse\n%s)" % (cond, ind(thn), ind(els))
+        if narrow_else and tn.left.id not in names:
+            join = "(match %s with\n| none =>\n%s\n| some %s =>\n%s)" % (tn.left.id, ind(thn), tn.left.id, ind(els))
         if c.partial:
             return self.wrap(binds, "match %s with\n| none => none\n| some %s =>\n%s" % (join, pat, ind(cont(c3))))
         return self.wrap(binds, "match %s with\n| %s =>\n%s" % (join, pat, ind(cont(c3))))
@@ -1234,10 +1288,12 @@ class Translator:
             if re.search(r"(?<![A-Za-z0-9_.'])%s(?![A-Za-z0-9_'])" % re.escape(v), body):
                 fvs.append((v, t))
         uses_env = bool(re.search(r"(?<![A-Za-z0-9_.])E(\.| |\))", body))
-        sig = (" (E : Env S)" if uses_env else "") + "".join(" (%s : %s)" % (v, lean_type(t)) for v, t in fvs)
+        extras = [(pn, pt) for pn, pt in getattr(self, "extra_params", []) if re.search(r"(?<![A-Za-z0-9_.])%s(?![A-Za-z0-9_])" % pn, body)]
+        sig = (" (E : Env S)" if uses_env else "") + "".join(" (%s : %s)" % (pn, pt) for pn, pt in extras) \
+            + "".join(" (%s : %s)" % (v, lean_type(t)) for v, t in fvs)
         text = "def %s%s : %s :=\n  fun %s =>\n%s\n" % (name, sig, ty, " ".join(pats), ind(body, 2))
         self.pending.append(text)
-        return "(%s%s%s)" % (name, " E" if uses_env else "", "".join(" " + v for v, _ in fvs))
+        return "(%s%s%s%s)" % (name, " E" if uses_env else "", "".join(" " + pn for pn, _ in extras), "".join(" " + v for v, _ in fvs))
 
     def state_type(self, names, types, with_rd):
         items = [lean_type(types[nm]) for nm in names] + (["Bytes"] if with_rd else [])
@@ -1351,7 +1407,8 @@ class Translator:
             uses_env = "E." in body or " E " in body or " E)" in body
             fuel = self.fuel_hints.get(name) == "param"
             sig = "".join(" (%s : %s)" % (p, lean_type(t)) for p, t, _ in params)
-            head = "def %s%s%s%s%s" % (lean_name, " (E : Env S)" if uses_env else "", " (fuel : Nat)" if fuel else "", " (r : Bytes)" if reader else "", sig)
+            extra = "".join(" (%s : %s)" % (pn, pt) for pn, pt in getattr(self, "extra_params", []) if __import__("re").search(r"(?<![A-Za-z0-9_.])%s(?![A-Za-z0-9_])" % pn, body))
+            head = "def %s%s%s%s%s%s" % (lean_name, " (E : Env S)" if uses_env else "", " (fuel : Nat)" if fuel else "", extra, " (r : Bytes)" if reader else "", sig)
             rl = lean_type(rt)
             if mutating:
                 rl = lean_type(self_type) if rt == ("unit",) else "(%s × %s)" % (rl, lean_type(self_type))
@@ -1636,4 +1693,40 @@ def translate_utils():
            "import Mimic.Py", "namespace Mimic.Extracted.UtilsCode", "open Mimic.Py", "", "variable {S : Type}", ""]
     out.append(t.function("xor"))
     out.append("end Mimic.Extracted.UtilsCode")
+    return "\n".join(out) + "\n"
+
+
+# ----------------------------------------------------------------------------- results.py NullBitmap (write side), packets.py row builders
+def translate_rows():
+    """→ Lean source of namespace Mimic.Extracted.RowsCode: NullBitmap.new / flip / __bytes__, make_binary_resultrow,
+    make_text_resultset_row.  Cell values are `Option W` (None or an opaque application value), columns are opaque; the
+    encoders of a column (`binary_encode`, `text_encode`) are function parameters."""
+    from mysql_mimic import packets as P, results as R
+    records = {"NullBitmap": [("bitmap", BYTES, None), ("offset", NAT, None)]}
+    out = ["-- GENERATED by harness/extract.py (harness/pytrans2.py) from /repo/mysql_mimic/{results,packets}.py — do not edit",
+           "import Mimic.Py", "import Mimic.Extracted.Types", "import Mimic.Extracted.ParsersCode", "namespace Mimic.Extracted.RowsCode",
+           "open Mimic.Py", "open Mimic.Extracted.ParsersCode (NullBitmap NullBitmap_num_bytes NullBitmap_pos)", "",
+           "variable {S C W : Type}", ""]
+    nb = T_rec("NullBitmap")
+    tr = Translator(R, {}, records)
+    tr.cls_name = "NullBitmap"
+    tr.fns.update(lib_fns())
+    PC = "Mimic.Extracted.ParsersCode."
+    tr.fns["cls._num_bytes"] = Fn("NullBitmap._num_bytes", PC + "NullBitmap_num_bytes", [("num_bits", NAT, None), ("offset", NAT, None)], NAT, False, False)
+    tr.fns["NullBitmap._pos"] = Fn("NullBitmap._pos", PC + "NullBitmap_pos", [("self", nb, None), ("i", NAT, None)], T_tuple([NAT, NAT]), False, False)
+    out.append(tr.function("NullBitmap.new", "NullBitmap_new", ret=nb))
+    out.append(tr.function("NullBitmap.flip", "NullBitmap_flip", self_type=nb, ret=("unit",), mutating=True))
+    out.append(tr.function("NullBitmap.__bytes__", "NullBitmap_bytes", self_type=nb, ret=BYTES))
+    tp = Translator(P, {}, records)
+    tp.fns.update(lib_fns())
+    for k in ("NullBitmap.new", "NullBitmap.flip", "NullBitmap.__bytes__"):
+        tp.fns[k] = tr.fns[k]
+    W, Cc = ("abs", "W"), ("abs", "C")
+    tp.abs_methods = {("C", "binary_encode"): ("binary_encode", [W], BYTES, True), ("C", "text_encode"): ("text_encode", [W], BYTES, True)}
+    tp.extra_params = [("binary_encode", "C → W → Option Bytes"), ("text_encode", "C → W → Option Bytes")]
+    tp.local_types = {"make_binary_resultrow": {"values": T_list(BYTES)}, "make_text_resultset_row": {"parts": T_list(BYTES)}}
+    ptypes = {"row": T_list(T_opt(W)), "columns": T_list(Cc)}
+    out.append(tp.function("make_binary_resultrow", param_types=ptypes))
+    out.append(tp.function("make_text_resultset_row", param_types=ptypes))
+    out.append("end Mimic.Extracted.RowsCode")
     return "\n".join(out) + "\n"
